@@ -31,7 +31,10 @@ TITLE = 'Tree views obey get/set laws and never mutate the viewed data'
 LEAN_MODULES = ['MlModel.Properties.C18']
 TRUSTED = [
     'modelled, not verified: CPython dict/list/tuple semantics (insertion order, negative indices, copy.copy), '
-    'structural pattern matching in set/__getitem__/_default_tree, Mapping mixin items()/keys() — written out in Model/Tree.lean',
+    'structural pattern matching in set/__getitem__/_default_tree, Mapping mixin items()/keys() — written out in Model/Tree.lean; '
+    'a dict holds key OBJECTS: Index(i) == i with equal hash address one entry, the entry keeps the key object it was first given and '
+    'items()/keys() list it (DKey.idx vs DKey.int, lookups through DKey.norm); both sides report which of the two every dict key and every '
+    'element of a listed path is — no Index->int canonicalisation anywhere in the tie',
     'ndarrays are heap objects of the Lean model (an `nd` cell = one array object = a C-contiguous window of a `buf` cell that '
     'several array objects may share): reads and sets (copying and in place) whose path indexes INTO an ndarray are in the model and '
     'in the correspondence, which compares object identity, BUFFER identity (owner of the memory: end of the .base chain), window '
@@ -42,7 +45,7 @@ TRUSTED = [
 ]
 ASSUMPTIONS = [
     'leaves are int/str/None; ndarrays are int64, 1-D or 2-D, C-contiguous (owning arrays and views of them); dict keys are '
-    'str/int/Literal objects; the view is built without key_paths',
+    'str/int/Index/Literal objects (an Index and the equal int never in one dict); the view is built without key_paths',
     'no cyclic input data (in-place sets never store an ancestor); ndarray elements are assigned ints only where the get/set law is claimed',
 ]
 RULE = ('heaps of <= ~25 cells (trees of depth <= 4 of dict/list/tuple with int/str/None/ndarray leaves, ~15% aliased '
@@ -94,6 +97,8 @@ class World:
       return k['s']
     if 'i' in k:
       return k['i']
+    if 'x' in k:                     # an Index OBJECT held as a dict key (the model keeps key objects: DKey.idx)
+      return self.T.Index(k['x'])
     return self.lit(k['l'], k['v'])
 
   def obj(self, r):
@@ -176,11 +181,12 @@ class World:
     return {'?': repr(k)}
 
   def dkey_json(self, k):
+    """A key OBJECT held by a dict.  Index(i) and i are reported apart ({'x': i} / {'i': i}): a dict keeps the
+    key object it was first given and items() lists it, and since wp-C18F the model does the same (DKey.idx vs
+    DKey.int) — before, both sides were canonicalised to {'i': i} here."""
     j = self.pkey_json(k)
     if isinstance(j, str):      # Reserved('SKIP') == 'SKIP' as a dict key
       return {'s': j}
-    if 'x' in j:
-      return {'i': j['x']}
     return j
 
   def path_json(self, key):
@@ -510,8 +516,9 @@ def plain_dicts(o):
 
 
 def canon_items_path(T, w, root, key):
-  """Path listed by items(), canonicalised by *where* each element was found: an element met as a dict
-  key is reported as that dict key (Index(0) -> 0, Reserved('SKIP') -> 'SKIP'); SELF alone is the root."""
+  """Path listed by items(): every element as the object it is (Index(i) and i apart — the model keeps the key
+  objects a dict holds); the only canonicalisation left is by *where* an element was found: a Reserved met as a
+  dict key is that string (Reserved('SKIP') -> 'SKIP'); SELF alone is the root."""
   if not isinstance(key, T.Key):
     return [w.pkey_json(key)]
   out, cur = [], root
@@ -520,8 +527,13 @@ def canon_items_path(T, w, root, key):
     if isinstance(cur, dict):
       j = w.dkey_json(k)
     out.append(j)
+    # Walk the DATA (not the view: `view[Literal]` short-circuits to the literal's value).  A Literal object
+    # stored as a dict key by an earlier set is an ordinary hashable key for `dict.__getitem__`, so the walk
+    # goes through it (wp-C18F: `cur` used to be dropped at a Literal; with the Index -> int canonicalisation of
+    # dict keys that was in force then, an Index held as a dict key BELOW a Literal key was reported as a
+    # sequence index while the model reported the int: a thorough-tier false alarm).
     try:
-      cur = cur[k] if not isinstance(k, T.Literal) else None
+      cur = cur[k] if isinstance(cur, (dict, list, tuple)) else None
     except Exception:  # pylint: disable=broad-except
       cur = None
   return out
@@ -653,8 +665,13 @@ def run_impl(case):
             later = [plain_prefix(T, list(k2) if isinstance(k2, T.Key) else [k2]) for k2, _ in pairs[j + 1:]]
             # the slot kind (array element vs row) is judged on the RESULT: an earlier pair (e.g. SELF) may have
             # replaced the container the path runs through, and assigning an int to a ROW broadcasts (numpy)
+            # (when no EARLIER pair is comparable with this path the input's judgement is kept as well: the
+            # result then has the input's structure along the path — same rule as in `_set_laws`)
+            earlier = [plain_prefix(T, list(k2) if isinstance(k2, T.Key) else [k2]) for k2, _ in pairs[:j]]
+            untouched = all(e is not None and incomparable(pk, e) for e in earlier)
+            kk = k if isinstance(k, T.Key) else T.Key((k,))
             if all(l is not None and incomparable(pk, l) for l in later) and \
-                _elementwise(T, nv, k if isinstance(k, T.Key) else T.Key((k,)), v):
+                (_elementwise(T, nv, kk, v) or (untouched and _elementwise(T, view, kk, v))):
               got = read(nv, k if isinstance(k, T.Key) else T.Key((k,)))
               if got[0] != 'ok' or not same(got[1], v):
                 law(i, f'after copy_and_update, {k!r} does not read the updated value')
@@ -859,7 +876,15 @@ def _set_laws(T, w, law, i, op, view, nv, keys, value):
     return      # Literal / inner SKIP / negative indices: outside the get/set laws
   for j, (_, k, v, pk) in enumerate(sets):
     later = [n[3] for n in sets[j + 1:]]
-    if all(incomparable(pk, l) for l in later) and _elementwise(T, view, k, v):
+    # The slot kind (array ELEMENT vs ROW) is judged on the RESULT (wp-C18F, same flaw as f25add5 in the
+    # copy_and_update clause): an EARLIER pair of the same multi-key set may have replaced or created the
+    # container this path runs through (`SELF`, or a prefix of this path, set to a 2-D array), and assigning an
+    # int to a ROW broadcasts — numpy's rule, not a tree operation.  When no earlier pair is comparable with this
+    # path the result has the input's structure along it, and the input's judgement is kept as well, so the
+    # law is claimed at least as often as before on every input the old clause judged correctly.
+    untouched = all(incomparable(pk, n[3]) for n in sets[:j])
+    if all(incomparable(pk, l) for l in later) and \
+        (_elementwise(T, nv, k, v) or (untouched and _elementwise(T, view, k, v))):
       got = read(nv, k)
       if got[0] != 'ok' or not same(got[1], v):
         law(i, f'get after copy_and_set({k!r}) returned {got!r}, not the value set')
@@ -978,7 +1003,9 @@ def extra(ctx):
           'ndarray': ['set into an array: ok', 'set into an array: KeyError', 'set into an array: AssertionError',
                       'inplace into an array: ok', 'get into an array: ok', 'get into an array: IndexError',
                       'read returned a new view of an input buffer', 'copying set returned a new array on a new buffer',
-                      'in-place set kept the array object', 'in-place write seen through >= 2 array objects (aliases)']}
+                      'in-place set kept the array object', 'in-place write seen through >= 2 array objects (aliases)',
+                      'multi-key set into an array: ok'],
+          'keyobj': ['set: a dict of the result holds an Index key object', 'items listed an Index held as a dict key']}
   missing = [f'{k}/{x}' for k, xs in need.items() for x in xs if not _STATS.get(k, {}).get(x)]
   if missing:
     ctx.notes.append('coverage holes: ' + ', '.join(missing))
@@ -1017,7 +1044,7 @@ def _nd_stats(case, op, o, kind):
       nxt = None
       if c['t'] == 'dict' and isinstance(k, dict):
         for dk, v in c['es']:
-          if dk == k or ('i' in dk and dk.get('i') == k.get('x')):
+          if dk == k or (('i' in dk or 'x' in dk) and dk.get('i', dk.get('x')) == k.get('x', k.get('i', object()))):
             nxt = v
       elif c['t'] in ('list', 'tuple') and isinstance(k, dict) and ('x' in k or 'i' in k):
         i = k.get('x', k.get('i'))
@@ -1036,6 +1063,8 @@ def _nd_stats(case, op, o, kind):
   if not any(into_arr(p) for p in ps):
     return
   _stat('ndarray', f"{kind} into an array: {o.get('err') or 'ok'}")
+  if kind == 'set' and isinstance(op.get('keys'), dict) and 'multi' in op['keys'] and len(ps) > 1:
+    _stat('ndarray', f"multi-key set into an array: {o.get('err') or 'ok'}")
   acc = []
   for f in ('res', 'one'):
     if f in o:
@@ -1054,9 +1083,50 @@ def _nd_stats(case, op, o, kind):
     _stat('ndarray', 'in-place write seen through >= 2 array objects (aliases)')
 
 
+def _walk_dkeys(d, acc):
+  if isinstance(d, dict):
+    for k, v in d.get('es', []):
+      acc.append(k)
+      _walk_dkeys(v, acc)
+    for v in d.get('rs', []):
+      _walk_dkeys(v, acc)
+
+
+def _keyobj_stats(case, op, o, kind):
+  """Which dict-key OBJECT situations the correspondence covered (Index held as a dict key)."""
+  for f in ('res', 'one'):
+    if f in o:
+      ks = []
+      _walk_dkeys(o[f], ks)
+      if any(isinstance(k, dict) and 'x' in k for k in ks):
+        _stat('keyobj', f'{kind}: a dict of the result holds an Index key object')
+  if kind == 'items' and o.get('err') is None:
+    for p, _ in o.get('items', []):
+      # an Index element followed by ... is a dict key iff the listed object sits in a dict; cheap proxy: the
+      # same path read on the input heap meets a dict cell there (input roots only)
+      cur, heap = op.get('root'), case['heap']
+      if not isinstance(cur, int):
+        break
+      for k in p:
+        c = heap[cur]
+        if c['t'] == 'dict' and isinstance(k, dict):
+          if 'x' in k:
+            _stat('keyobj', 'items listed an Index held as a dict key')
+          nxt = [v for dk, v in c['es'] if dk == k]
+        elif c['t'] in ('list', 'tuple') and isinstance(k, dict) and 'x' in k and 0 <= k['x'] < len(c['rs']):
+          nxt = [c['rs'][k['x']]]
+        else:
+          nxt = []
+        if not nxt:
+          break
+        cur = nxt[0]
+
+
 def nontrivial(case, obs):
   for op, o in zip(case['ops'], obs['ops']):
     kind = 'inplace' if op.get('in_place') else op['op']
+    if not o.get('skipped'):
+      _keyobj_stats(case, op, o, kind)
     if not o.get('skipped'):
       _nd_stats(case, op, o, kind)
     if o.get('skipped'):
@@ -1128,6 +1198,9 @@ class Gen:
     if kind == 'dict':
       ks = []
       pool = [{'s': s} for s in self.SKEYS[:3]] + [{'i': i} for i in self.IKEYS[:2]]
+      if rng.random() < 0.12:          # an Index OBJECT as a key of an input dict (never next to the equal int)
+        j = 3 + rng.randrange(2)
+        pool[j] = {'x': pool[j]['i']}
       rng.shuffle(pool)
       es = [[pool[j], kids[j]] for j in range(n)]
       return self.add({'t': 'dict', 'es': es})
@@ -1347,6 +1420,8 @@ FIXED_TREES = [
     ([{'t': 'int', 'v': 1}, {'t': 'tuple', 'rs': [0]}, {'t': 'list', 'rs': [1]}, {'t': 'dict', 'es': [[{'s': 'a'}, 2], [{'i': 0}, 1]]}], 3),
     ([{'t': 'null'}], 0),
     ([{'t': 'dict', 'es': []}, {'t': 'list', 'rs': []}, {'t': 'dict', 'es': [[{'s': 'a'}, 0], [{'s': 'b'}, 1]]}], 2),
+    # Index OBJECTS held as dict keys (Index(0) in the root, Index(1) one level down)
+    ([{'t': 'int', 'v': 1}, {'t': 'dict', 'es': [[{'x': 1}, 0]]}, {'t': 'dict', 'es': [[{'x': 0}, 1], [{'s': 'a'}, 0]]}], 2),
 ]
 ALPHABET = [{'s': 'a'}, {'s': 'n'}, {'x': 0}, {'x': 1}, {'x': 2}, {'x': -1}, {'i': 0}, 'SELF', 'SKIP']
 
@@ -1485,6 +1560,20 @@ def make_arr_case(rng):
     elif k < 0.65:
       pre2, cell2 = rng.choice(arrs)
       ops.append({'op': 'update', 'root': tgt, 'pairs': [[p, v], [into(pre2, cell2), rng.choice(ints)]], 'asdict': False})
+      cur = {'res': len(ops) - 1}
+    elif k < 0.72:
+      # multi-key copying set whose FIRST pair replaces (SELF, the array's own path, a prefix of it) or creates the
+      # container the SECOND path runs through — by an array of another rank now and then — or is unrelated; the
+      # second pair then assigns into an element or a ROW of whatever is there in the result (wp-C18F)
+      first = rng.choice([['SELF'], list(pre), list(pre[:-1]) or ['SELF'], into(*rng.choice(arrs)), [{'s': 'fresh'}]])
+      v1 = rng.choice(avals + avals + ints + lvals[:2])
+      second = p if rng.random() < 0.8 else first + copy.deepcopy(rng.choice([[{'x': 0}], [{'x': 0}, {'x': 1}], [{'x': -1}]]))
+      pair = [[first or ['SELF'], v1], [second, rng.choice(ints) if rng.random() < 0.8 else v]]
+      if rng.random() < 0.25:
+        pair.reverse()
+      tup = g.add({'t': 'tuple', 'rs': [pair[0][1], pair[1][1]]})
+      ops.append({'op': 'set', 'root': tgt, 'keys': {'multi': [pair[0][0], pair[1][0]]}, 'value': tup, 'in_place': False,
+                  'bare': False, 'aslist': rng.random() < 0.2})
       cur = {'res': len(ops) - 1}
     elif k < 0.8:
       ops.append({'op': rng.choice(['get', 'getd']), 'root': tgt, 'keys': {'path': p}})
